@@ -372,7 +372,11 @@ func (r *Runtime) checkHostObjectPropertyDescr(name unistring.String, descr Prop
 func (o *objectGoReflect) defineOwnPropertyStr(name unistring.String, descr PropertyDescriptor, throw bool) bool {
 	if o.val.runtime.checkHostObjectPropertyDescr(name, descr, throw) {
 		n := name.String()
-		if has, ok := o._put(n, descr.Value, throw); !has {
+		if descr.Value == nil && o._has(n) {
+			// nothing to change: the attributes have been checked and there is no new value
+			return true
+		}
+		if has, ok := o._put(n, nilSafe(descr.Value), throw); !has {
 			o.val.runtime.typeErrorResult(throw, "Cannot define property '%s' on a host object", n)
 			return false
 		} else {
